@@ -288,4 +288,65 @@ fn k_npy_write_array_values_bit_exact() {
     kani::cover!(b1 == 0x8000000000000000);
 }
 
+
+// (a second attempt at whole-file harnesses -- a 19-byte file with a 6-byte header, HeaderDict::from_str stubbed --
+// also exceeded 1500 s for two read_array calls and was dropped; see DESIGN.md section 10)
+
+
+// ------------------------------------------------------------------ chunked readers (C18)
+/// BufRead over a byte array that hands out at most `chunk` bytes per fill_buf / read call
+struct ChunkedReader<'a> {
+    data: &'a [u8],
+    pos: usize,
+    chunk: usize,
+}
+
+impl<'a> Read for ChunkedReader<'a> {
+    fn read(&mut self, buf: &mut [u8]) -> io::Result<usize> {
+        let left = self.data.len() - self.pos;
+        let mut n = if buf.len() < left { buf.len() } else { left };
+        if n > self.chunk {
+            n = self.chunk;
+        }
+        let mut i = 0;
+        while i < n {
+            buf[i] = self.data[self.pos + i];
+            i += 1;
+        }
+        self.pos += n;
+        Ok(n)
+    }
+}
+
+impl<'a> BufRead for ChunkedReader<'a> {
+    fn fill_buf(&mut self) -> io::Result<&[u8]> {
+        let left = self.data.len() - self.pos;
+        let n = if left < self.chunk { left } else { self.chunk };
+        Ok(&self.data[self.pos..self.pos + n])
+    }
+    fn consume(&mut self, n: usize) {
+        self.pos += n;
+    }
+}
+
+/// the decoded values do not depend on how the reader chunks the stream (1 or 3 bytes per call)
+#[kani::proof]
+#[kani::unwind(12)]
+fn k_npy_decode_chunked_reader() {
+    let bytes: [u8; 8] = kani::any();
+    let whole = TypeDescriptor::new(Endian::Big, Type::I4).read(&mut &bytes[..]).unwrap();
+    assert!(whole.len() == 2, "two i4 values");
+    let chunks = [1usize, 3];
+    let mut c = 0;
+    while c < 2 {
+        let mut r = ChunkedReader { data: &bytes, pos: 0, chunk: chunks[c] };
+        let got = TypeDescriptor::new(Endian::Big, Type::I4).read(&mut r);
+        assert!(got.is_ok(), "a chunked stream of whole values decodes");
+        let got = got.unwrap();
+        assert!(got.len() == 2 && got[0] == whole[0] && got[1] == whole[1], "same values for every chunking of the stream");
+        c += 1;
+    }
+    kani::cover!(true);
+}
+
 playback_tests!("h_npy_header");
